@@ -37,6 +37,17 @@ SETS = {
     "D-switch-first-lookup-2": rs({"op": "Switch", "ps": ["c:$S"], "tgt": -1}, {"op": "Case", "ps": ["i:1"], "tgt": 3}, P("Return"), P("End")),
     "D-nested": rs(B(1, 3), P("a"), J(8), {"op": "Switch", "ps": ["c:$S"], "tgt": -1}, {"op": "Case", "ps": ["i:1"], "tgt": 7}, J(8), P("x"), P("b"), P("Return")),
 }
+
+
+def _from_source(src: str):
+    """a routine set as a binary reader delivers it, obtained by compiling `src` (used for shapes that are tedious to write as records)"""
+    c = drive.compile_text(src)
+    assert c["status"] == "ok", c["err"]
+    return gen_flow.renumber(c["ops"])
+
+
+SETS["D-forever"] = rs({"op": "fa", "ps": ["i:1"], "tgt": -1}, {"op": "fbody", "ps": ["c:K"], "tgt": -1}, B(1, 5), {"op": "fmore", "ps": [], "tgt": -1}, J(1), P("fafter"), P("End"))
+SETS["D-forever-2"] = _from_source("def 0 { x(); forever { if ($W > 2) { y(); break_loop; } z($W); continue; } w(); hold; }")
 TEXTS = {
     "T-simple": "def 0 { a(1); return; }",
     "T-flow": "def 0 { if ($V == 1 || $V == 2) { a(); } elseif not ($W > 3) { b(); } else { c(); } switch ($S) { case 1: d(); break; default: e(); } while ($V == 1) { f(); } return; }",
@@ -107,6 +118,41 @@ class _PipeConn:
 
     def close(self):
         os.close(self.fd)
+
+
+def twice_same_objects(case: dict) -> dict:
+    """convert() twice on the SAME operation objects (what a caller does who keeps a loaded script around): the second answer
+    must equal the first and the objects must still mean what they meant - `Decompilation does not alter the meaning of the
+    routine set it was given`."""
+    import copy
+    from explorerscript.ssb_converting.ssb_decompiler import ExplorerScriptSsbDecompiler
+    from explorerscript.ssb_converting.ssb_data_types import DungeonModeConstants
+    ops = canon.build_ops(case["routines"])
+    infos, coros = canon.build_infos(case["infos"])
+    before = canon.ops_recs(copy.deepcopy(ops), jump_last=False)
+    before_infos = [(i.type.name, i.linked_to, i.linked_to_name) for i in infos]
+    outs = []
+    for _ in range(2):
+        try:
+            text, sm = ExplorerScriptSsbDecompiler(infos, ops, coros, common.PPL, DungeonModeConstants(*decomp.DMODE)).convert()
+            outs.append({"status": "ok", "text": text, "sm": sm.serialize()})
+        except Exception as ex:  # noqa
+            outs.append({"status": type(ex).__name__, "text": "", "sm": None})
+    try:
+        mutated = canon.ops_recs(ops, jump_last=False) != before or [(i.type.name, i.linked_to, i.linked_to_name) for i in infos] != before_infos
+    except Exception:
+        mutated = True
+    return {"first": digest(outs[0]), "second": digest(outs[1]), "mutated": mutated, "status": outs[0]["status"]}
+
+
+def _compiled_inputs(rng: random.Random, n: int) -> list[dict]:
+    """routine sets as the compiler produces them from random programs (every statement form incl. dungeon_mode, scn, menus)"""
+    out = []
+    for _ in range(n):
+        c = drive.compile_text(gen_exps.random_program(rng, 2))
+        if c["status"] == "ok":
+            out.append({"routines": [[dict(o) for o in r] for r in c["ops"]], "infos": c["infos"]})
+    return out
 
 
 def run_history(arg) -> dict:
@@ -232,6 +278,25 @@ def main() -> int:
         rep.violation("history:" + kind, {"history": [list(x) for x in meta[i]], "event_index": l,
                                           "event": cases[i]["events"][l - 1] if 0 < l <= len(cases[i]["events"]) else None,
                                           "inputs": {n: (SETS.get(n) and decomp and [f"{o['off']}:{o['op']}->{o['tgt']}" for o in SETS[n][0]]) or TEXTS.get(n) for _, n in meta[i]}})
+    # argument preservation: every special-syntax opcode family (the write handlers that translate parameters), C02's corpus sample
+    from vf.pool import pmap as pool_map
+    pres_in = gen_flow.special_families() + [c for c in (gen_flow.random_flow(rng, 7) for _ in range(150 if not thorough else 1500)) if c]
+    for c in _compiled_inputs(rng, 60 if not thorough else 600):
+        rs_ = gen_flow.renumber(c["routines"])
+        gen_flow.sanitise_dmode(rs_)
+        pres_in.append({"routines": rs_, "infos": c["infos"]})
+    pres = pool_map(twice_same_objects, pres_in, limit=30.0)
+    pcases, pmeta = [], []
+    for c, r in zip(pres_in, pres):
+        if r.get("_error"):
+            raise common.MachineryError("argument-preservation driver failed: " + r["_error"])
+        if r.get("_timeout"):
+            continue
+        pcases.append({"events": [], "pairs": [{"live": r["second"], "fresh": r["first"]}], "mutated": bool(r["mutated"])})
+        pmeta.append(c)
+    for i, kind, l in validate(rep, pcases, "preserve"):
+        rep.violation("same-objects-twice:" + kind, {"input": [[f"{o['off']}:{o['op']}({','.join(o['ps'])})->{o['tgt']}" for o in r] for r in pmeta[i]["routines"]]})
+    rep.extra["argument_preservation_cases"] = len(pcases)
     # self-tests
     good = [c for c in cases if any(e["e"] == "cache-hit" for e in c["events"])][:2] or cases[:2]
     muts = []
